@@ -46,6 +46,22 @@ func (b *batchRecorder) StoreLogs(logs []*raft.Log) error {
 	return b.LogStore.StoreLogs(logs)
 }
 
+// failingDest: a destination whose k-th StoreLogs fails (disk full at that point, a closed store, …)
+type failingDest struct {
+	raft.LogStore
+	k, n int
+}
+
+func (f *failingDest) StoreLogs(logs []*raft.Log) error {
+	f.n++
+	if f.n == f.k {
+		return errors.New("injected: destination write failed")
+	}
+	return f.LogStore.StoreLogs(logs)
+}
+
+func (f *failingDest) StoreLog(l *raft.Log) error { return f.StoreLogs([]*raft.Log{l}) }
+
 type storePair struct {
 	log     raft.LogStore
 	stable  raft.StableStore
@@ -251,6 +267,44 @@ func execMigrateOp(op, srcKind, dstKind string) string {
 			sz = append(sz, fmt.Sprint(s))
 		}
 		return fmt.Sprintf("%s %d %d %d %d batches=%s progress=%s", resClass(err), first, last, len(got), fnvDigest(got), strings.Join(sz, ","), closedFn())
+	case "copydstfail":
+		// copydstfail <batchBytes> <k> <first> toks…: the destination's k-th write fails: CopyLogs must return the error
+		src, err := mkStore(srcKind)
+		if err != nil {
+			return "setup-err " + err.Error()
+		}
+		defer src.cleanup()
+		dst, err := mkStore(dstKind)
+		if err != nil {
+			return "setup-err " + err.Error()
+		}
+		defer dst.cleanup()
+		var logs []*raft.Log
+		for _, t := range ws[4:] {
+			logs = append(logs, parseLogTok(t))
+		}
+		if len(logs) > 0 {
+			if err := src.log.StoreLogs(logs); err != nil {
+				return "setup-err " + err.Error()
+			}
+		}
+		var bb, k int
+		fmt.Sscanf(ws[1], "%d", &bb)
+		fmt.Sscanf(ws[2], "%d", &k)
+		err = migrate.CopyLogs(context.Background(), &failingDest{LogStore: dst.log, k: k}, src.log, bb, nil)
+		first, _ := dst.log.FirstIndex()
+		last, _ := dst.log.LastIndex()
+		var got []*raft.Log
+		if last >= first && last > 0 {
+			for i := first; i <= last; i++ {
+				var l raft.Log
+				if e := dst.log.GetLog(i, &l); e != nil {
+					return "dst-read-err " + e.Error()
+				}
+				got = append(got, &l)
+			}
+		}
+		return fmt.Sprintf("%s %d %d %d %d", resClass(err), first, last, len(got), fnvDigest(got))
 	case "copyfail":
 		// copyfail <first|last|get|closed> <prog>: the source fails (I/O error on an index lookup or a read, or it is a
 		// WAL that has been closed): CopyLogs must return the error and still close the progress channel
@@ -440,6 +494,13 @@ func migMonitor(ops, impl []string) []Violation {
 		if ws[0] == "copyfail" && !strings.HasPrefix(out, "setup-err") && !strings.HasPrefix(out, "err") {
 			add("CopyLogs returned nil although the source failed", out)
 		}
+		if ws[0] == "copydstfail" && strings.HasPrefix(out, "ok ") {
+			// CopyLogs returned nil: the destination must hold the whole source
+			f := strings.Fields(out)
+			if n := len(ws) - 4; len(f) >= 4 && int(atoiU(f[3])) != n {
+				add("CopyLogs returned nil although a write to the destination failed: the destination is short of the source", fmt.Sprintf("source holds %d entries, destination %s", n, f[3]))
+			}
+		}
 		if ws[0] != "copylogs" || strings.HasPrefix(out, "setup-err") {
 			continue
 		}
@@ -545,6 +606,11 @@ func suiteMigrate(seed uint64, tier string) *Report {
 		}
 		c.Ops = append(c.Ops, strings.TrimRight(fmt.Sprintf("copystable %s %s %s %s", pol, scancel, pick(cr, []string{"p0", "p1", "p2"}), strings.Join(st, " ")), " "))
 		c.Ops = append(c.Ops, fmt.Sprintf("copyfail %s %s", pick(cr, []string{"first", "last", "get", "closed"}), pick(cr, []string{"p0", "p1", "p2"})))
+		if nlogs > 0 {
+			// the destination fails on one of its writes — the last one (often a partial batch) as likely as any
+			bbF := pick(cr, []int{0, 64, 100, maxData + 32, 2*maxData + 64, 1 << 20})
+			c.Ops = append(c.Ops, strings.TrimRight(fmt.Sprintf("copydstfail %d %d %d %s", bbF, 1+cr.Intn(4), first, strings.Join(toks, " ")), " "))
+		}
 		c.Impl = c.Exec(c.Ops)
 		c.NonTrivial = nlogs > 0
 		bbc := "small"
